@@ -193,6 +193,84 @@ theorem frame_count (lp : List FrameType) (hlp : lpOk lp) (items : List (Rec ⊕
   rw [(h2 k ft hk).1]
   exact (refsOf_spec k items 0).2.2.1
 
+/-- **The position map points at the right records.**  Entry `j` of the references computed for frame type `k` is the
+position of the frame record that encodes row `j` of that type (this is the hypothesis `fetchOk` of the populate
+theorems). -/
+theorem fetch_of_refs (lp : List FrameType) (k : Nat) (ft : FrameType) (hk : lp[k]? = some ft) :
+    ∀ (items : List (Rec ⊕ FrameA)) (pre : List Rec), (∀ f, .inr f ∈ items → frameOk lp f) →
+      fetchOk ft (pre ++ items.map (toRec lp)) (refsOf k pre.length items) (rowsOf k (framesIn items))
+  | [], pre, _ => by
+    refine ⟨by simp [refsOf, framesIn, rowsOf], ?_⟩
+    intro j hj; simp [refsOf] at hj
+  | .inl r :: its, pre, hfr => by
+    have ih := fetch_of_refs lp k ft hk its (pre ++ [r]) (fun f hf => hfr f (by simp [hf]))
+    simpa [refsOf, framesIn, toRec, List.append_assoc] using ih
+  | .inr f :: its, pre, hfr => by
+    have ih := fetch_of_refs lp k ft hk its (pre ++ [frameRec lp f]) (fun f hf => hfr f (by simp [hf]))
+    have hfok := hfr f (by simp)
+    cases hv : f.vals with
+    | none => simpa [refsOf, framesIn, rowsOf, hv, toRec, List.append_assoc] using ih
+    | some vs =>
+      by_cases hft : f.ft = k
+      · obtain ⟨hfno, hrest⟩ := hfok
+        rw [hft, hk] at hrest
+        simp only [hv] at hrest
+        have ih' : fetchOk ft (pre ++ frameRec lp f :: its.map (toRec lp)) (refsOf k (pre.length + 1) its)
+            (rowsOf k (framesIn its)) := by
+          simpa [List.append_assoc] using ih
+        refine ⟨by simp [refsOf, framesIn, rowsOf, hv, hft, ih'.1], ?_⟩
+        intro j hj
+        simp only [refsOf, hv, hft, if_true, framesIn, rowsOf, List.map_cons, toRec] at hj ⊢
+        cases j with
+        | zero =>
+          refine ⟨frameRec lp f, f.frameNo, by simp, hfno, ?_, by simpa using hrest.1⟩
+          simp [frameRec, hft, hk, hv]
+        | succ j =>
+          have hj' : j < (refsOf k (pre.length + 1) its).length := by simpa using hj
+          obtain ⟨r, fno, h1, h2, h3, h4⟩ := ih'.2 j hj'
+          exact ⟨r, fno, by simpa using h1, h2, by simpa using h3, by simpa using h4⟩
+      · simpa [refsOf, framesIn, rowsOf, hv, hft, toRec, List.append_assoc] using ih
+
+/-- **Index and populate, end to end.**  For any well-formed log pass, any file made of its frame records (any
+interleaving of frame types, data-less frame records, any frame numbers) mixed with records the index skips, any prior
+storage, any selector and any channel subset: indexing succeeds and populating frame type `k` gives exactly the selected
+rows and channels of the recorded values of that type. -/
+theorem populate_indexed (lp : List FrameType) (hlp : lpOk lp) (items : List (Rec ⊕ FrameA))
+    (hskip : ∀ r, .inl r ∈ items → (r.encrypted || r.isEflr) = true) (hfr : ∀ f, .inr f ∈ items → frameOk lp f)
+    (k : Nat) (ft : FrameType) (hk : lp[k]? = some ft) (arrs : List Arr) (harrs : arrs.length = ft.chans.length)
+    (sel : Option TD.C15.Selector) (chans : Option (List Bytes)) (hsel : selOk sel) :
+    ∃ m idx, indexIflrs lp 0 (items.map (toRec lp)) [] = .ok m ∧
+      (∀ i ∈ idx, i < (rowsOf k (framesIn items)).length) ∧
+      selIndices sel (rowsOf k (framesIn items)).length = .ok (idx, idx.length) ∧
+      (idx ≠ [] → populate ft (items.map (toRec lp)) m arrs sel chans =
+        .ok (expectArrays chans 0 ft.chans (idx.map (fun i => (rowsOf k (framesIn items)).getD i [])), idx.length)) := by
+  obtain ⟨m, hm, hx⟩ := x_and_frameno lp hlp items hskip hfr
+  have hrefs := (hx k ft hk).1
+  have hftmem : ft ∈ lp := List.mem_of_getElem? hk
+  obtain ⟨hname, _, hch⟩ := hlp.2 ft hftmem
+  have hfetch := fetch_of_refs lp k ft hk items [] hfr
+  simp only [List.nil_append, List.length_nil] at hfetch
+  cases hl : m.lookup ft.name with
+  | none =>
+    rw [hl] at hrefs
+    simp only [Option.getD_none] at hrefs
+    have hlen : (rowsOf k (framesIn items)).length = 0 := by
+      rw [← hfetch.1, ← hrefs]; rfl
+    obtain ⟨idx, cnt, hsi, hb, hlc⟩ := selector_indices sel (rowsOf k (framesIn items)).length hsel
+    subst hlc
+    refine ⟨m, idx, hm, hb, hsi, ?_⟩
+    intro hne
+    cases idx with
+    | nil => exact absurd rfl hne
+    | cons i _ => have := hb i (by simp); omega
+  | some refs =>
+    rw [hl] at hrefs
+    simp only [Option.getD_some] at hrefs
+    subst hrefs
+    obtain ⟨idx, hb, hsi, hp⟩ := populate_commutes ft (items.map (toRec lp)) m (refsOf k 0 items)
+      (rowsOf k (framesIn items)) arrs sel chans hname hch hl hfetch harrs hsel
+    exact ⟨m, idx, hm, hb, hsi, hp⟩
+
 /-! non-vacuity: two interleaved frame types, a 2×2 channel, a data-less frame record and an encrypted record -/
 def exLp : List FrameType :=
   [⟨⟨1, 0, [70, 48]⟩, [⟨[88], 2, [1]⟩, ⟨[65], 13, [2, 2]⟩]⟩, ⟨⟨1, 0, [70, 49]⟩, [⟨[89], 17, [1]⟩]⟩]
